@@ -167,13 +167,21 @@ func c05ForceTable(c *Check, a *Anchors) {
 	for _, st := range a.BodyClosure.Body.List {
 		has := false
 		ast.Inspect(st, func(nd ast.Node) bool {
-			if call, ok := nd.(*ast.CallExpr); ok && isFunc(callee(a.BodyClosure.Info(), call), PkgFingerprint, "", "IsTaskUpToDate") {
+			if call, ok := nd.(*ast.CallExpr); ok && a.isUpToDateCallee(callee(a.BodyClosure.Info(), call)) {
 				has = true
 			}
 			return true
 		})
 		if has {
 			workStart = st.End()
+		}
+	}
+	upName := "res:fingerprint.IsTaskUpToDate"
+	for v, nme := range pe.callOrd {
+		if call, ok := v.(*ssa.Call); ok {
+			if l, _ := a.ssaLabel(call); l == "uptodate" {
+				upName = "res:" + nme // the query may be made through a thin forwarder of the package
+			}
 		}
 	}
 	var bad []string
@@ -227,7 +235,7 @@ func c05ForceTable(c *Check, a *Anchors) {
 		}
 		if out == "nil" && !reachedWork {
 			// successful return without reaching the commands: only 'up to date'
-			up, ok := atomWith(p.Asg, "res:fingerprint.IsTaskUpToDate", "#0")
+			up, ok := atomWith(p.Asg, upName, "#0")
 			if !(checked && ok && p.Asg[up]) {
 				bad = append(bad, "the body returns success without running the commands and without an 'up to date' verdict: "+p.String())
 			} else {
